@@ -52,7 +52,24 @@ pub enum Case {
     /// negatives: keys that are not of small order are never rejected and give R1's secret
     Negative { suite: SuiteId, mode: Mode, from: u32, count: u32 },
     KemLevel { enc_idx: usize, key_set: u64 },
+    /// valid keys of large prime order whose DH result is SPARSE: one or more of its 8-byte words are zero (u = 9, 2^64,
+    /// 9 + 9*2^128, ...). Only the all-zero result aborts setup; these must be accepted and give R1's context
+    Sparse { suite: SuiteId, mode: Mode, idx: usize },
 }
+
+/// (private key 01 02 .. 20, public key, X25519(private, public)) - computed with the from-scratch ladder of ref/prims.py:
+/// public = (k^-1 mod l) * T for a chosen sparse point T of the prime-order subgroup
+pub const SPARSE_SK: &str = "0102030405060708090a0b0c0d0e0f101112131415161718191a1b1c1d1e1f20";
+pub const SPARSE: [(&str, &str); 8] = [
+    ("8a1bf6ce57170ce4c7e234b0df9bc25cfc1c5eb8a25d9cfd4b83a90ecd26d92e", "0900000000000000000000000000000000000000000000000000000000000000"),
+    ("76e9118dd228beeed12e0e0db470fdb3926ade7bf13ba0da955351acc4ace308", "0000000000000000010000000000000000000000000000000000000000000000"),
+    ("4598ed60fb121a8ede737b674bfc29141360d9db7c4d6340e2894df82b65f279", "0000000000000000220000000000000000000000000000000000000000000000"),
+    ("f65f9ccd87e68cbe5f5257ed889d95cd3232f6ecba41453fb024d40dfa32393c", "0000000000000000260000000000000000000000000000000000000000000000"),
+    ("0ea8c194f6bf7f64374e76f7ac057ec742fe340a04e7bad9ce16e777c8eb1a0a", "0900000000000000000000000000000009000000000000000000000000000000"),
+    ("51bf98f85580cac27011824e1baab05bd61b7068a4c12c26fdd5201c3cc0353f", "1000000000000000000000000000000010000000000000000000000000000000"),
+    ("5482eb65c6bcc3407118dba5dbe9413ec9cd4b0196bbd06552524b58efedb41d", "0700000000000000130000000000000000000000000000001300000000000000"),
+    ("d98ef0fa94f70a4069ecb8b312fdda2883efb70f10ae9918b0e02a44ad9f495c", "0700000000000000250000000000000000000000000000002500000000000000"),
+];
 
 pub struct C10;
 
@@ -127,6 +144,11 @@ impl Part for C10 {
                 v.push(Case::KemLevel { enc_idx, key_set });
             }
         }
+        for idx in 0..SPARSE.len() {
+            for mode in MODES {
+                v.push(Case::Sparse { suite: SuiteId { kem: Kem::X25519, kdf: Kdf::Sha256, aead: Aead::ChaCha20Poly1305 }, mode, idx });
+            }
+        }
         let suite = SuiteId { kem: Kem::X25519, kdf: Kdf::Sha256, aead: Aead::ChaCha20Poly1305 };
         for mode in if t { MODES.to_vec() } else { vec![Mode::Base, Mode::AuthPsk] } {
             let mut f = 0;
@@ -142,6 +164,48 @@ impl Part for C10 {
         out.nontrivial = true;
         let encs = small_order_encodings();
         match c {
+            Case::Sparse { suite, mode, idx } => {
+                out.outcome = "sparse-dh-result".into();
+                let sk = unhex(SPARSE_SK);
+                let pk = unhex(SPARSE[*idx].0);
+                let want_dh = unhex(SPARSE[*idx].1);
+                if Kem::X25519.dh(&sk, &pk) != Some(want_dh.clone()) {
+                    out.fail_machinery("R1 does not reproduce the sparse DH witness");
+                    return out;
+                }
+                let ops = suite_ops(*suite);
+                let mut k = keys(Kem::X25519, 10_900 + *idx as u64, cfg.seed);
+                let info = b"sparse".to_vec();
+                // the receiver holds the witness private key and gets the witness public key as enc; in the Auth modes the
+                // expected sender key is the witness public key as well (both of the receiver's DH results are sparse)
+                k.sk_r = sk.clone();
+                k.pk_r = Kem::X25519.pk_of(&sk).unwrap();
+                let mut m = mode_spec(*mode, &k, &bytes(Fill::Mix, 32, 11, cfg.seed), &bytes(Fill::Mix, 22, 12, cfg.seed));
+                if mode.has_auth() {
+                    m.pk_s = pk.clone();
+                }
+                match (r1_setup_r(*suite, &m, &pk, &sk, &info), ops.setup_receiver(&m, &sk, &pk, &info)) {
+                    (Some(rc), Obs::Ok(r)) => {
+                        expect_bytes(&mut out, &format!("receiver whose DH result is {}: export", SPARSE[*idx].1), &r.export(b"x", 32), &rc.export(b"x", 32).unwrap());
+                    }
+                    (Some(_), o) => out.fail(format!("setup_receiver with a key of large prime order whose DH result is {} (not all zero): {} - must not be rejected", SPARSE[*idx].1, o.map(|_| ()).class())),
+                    (None, _) => out.fail_machinery("R1 rejects the sparse witness"),
+                }
+                // the sender authenticates with the witness private key towards the witness public key as recipient
+                if mode.has_auth() {
+                    let mut ms = mode_spec(*mode, &k, &bytes(Fill::Mix, 32, 11, cfg.seed), &bytes(Fill::Mix, 22, 12, cfg.seed));
+                    ms.sk_s = sk.clone();
+                    ms.pk_s = k.pk_r.clone();
+                    match (r1_setup_s(*suite, &ms, &pk, &info, &k.ikm_e), ops.setup_sender(&ms, &pk, &info, &mut ScriptRng::new(&k.ikm_e))) {
+                        (Some((e, sc)), Obs::Ok((enc, s))) => {
+                            out.check("sender with a sparse identity DH result: enc equals R1's", enc == e);
+                            expect_bytes(&mut out, "sender with a sparse identity DH result: export", &s.export(b"x", 32), &sc.export(b"x", 32).unwrap());
+                        }
+                        (Some(_), o) => out.fail(format!("setup_sender whose identity DH result is {}: {} - must not be rejected", SPARSE[*idx].1, o.map(|_| ()).class())),
+                        (None, _) => out.fail_machinery("R1 rejects the sparse sender witness"),
+                    }
+                }
+            }
             Case::KemLevel { enc_idx, key_set } => {
                 out.outcome = "kem-level".into();
                 let bad = &encs[*enc_idx];
